@@ -563,6 +563,11 @@ func (vt *Model) print(seq ansi.Print) {
 // scrollUp shifts all text upward by n rows. Semantically, this is backwards -
 // usually scroll up would mean you shift rows down
 func (vt *Model) scrollUp(n int) {
+	if n > vt.height() {
+		// More than the whole screen is the whole screen (and row+n
+		// cannot overflow)
+		n = vt.height()
+	}
 	for row := range vt.activeScreen {
 		if row > int(vt.margin.bottom) {
 			continue
@@ -582,6 +587,9 @@ func (vt *Model) scrollUp(n int) {
 
 // scrollDown shifts all lines down by n rows.
 func (vt *Model) scrollDown(n int) {
+	if n > vt.height() {
+		n = vt.height()
+	}
 	for r := vt.margin.bottom; r >= vt.margin.top; r -= 1 {
 		if r-row(n) < vt.margin.top {
 			for col := vt.margin.left; col <= vt.margin.right; col += 1 {
